@@ -52,11 +52,11 @@ theorem runW_good {s s' : St} {evs : List Ev} (h : Good s) (hw : GoodW s) (hr : 
 goes negative, no channel is closed twice -/
 theorem noCrash_step {s s' : St} {e : Ev} (h : Good s) (he : GoodE s) (hok : envOK s e = true)
     (hc : s.crashed = false) (hs : step s e = some s') : s'.crashed = false := by
-  obtain ⟨st, sEnter, sp, kEnter, kWait, kClean, lp, pp, abortClosed, nbClosed, wg, writing, res, opens, crashed,
+  obtain ⟨st, sEnter, sp, kEnter, kDecided, kWait, kClean, lp, pp, abortClosed, nbClosed, wg, writing, res, opens, crashed,
     fuel, flag, rEnter, rSend, rWait, runOver, stopsDone⟩ := s
-  obtain ⟨h1, h2, h3, h4, h5, h6, h7, h8, h9, h10, h11, h12, h13⟩ := h
+  obtain ⟨h1, h2, h3, h4, h5, h6, h7, h8, h9, h10, h11, h12, h13, h14, h15⟩ := h
   obtain ⟨e1, e2, e3, e4⟩ := he
-  dsimp only [stoppers] at h1 h2 h3 h4 h5 h6 h7 h8 h9 h10 h11 h12 h13 e1 e2 e3 e4 hc
+  dsimp only [stoppers] at h1 h2 h3 h4 h5 h6 h7 h8 h9 h10 h11 h12 h13 h14 h15 e1 e2 e3 e4 hc
   cases e <;> simp only [envOK, stoppers] at hok <;> lc_open hs
   all_goals try (have hser := e1 (by omega))
   all_goals ((try simp only [deactivate]) <;> (try split) <;>
@@ -107,10 +107,10 @@ theorem lc_inv_wg_nonneg (o : Bool) (s s' : St) (h : Reach o s)
     (hs : step s .loopDeactivate = some s' ∨ step s .starterDeactivate = some s') :
     s.wg = 1 ∧ s'.wg = 0 ∧ s'.crashed = false := by
   have hg := lc_inv o s h
-  obtain ⟨st, sEnter, sp, kEnter, kWait, kClean, lp, pp, abortClosed, nbClosed, wg, writing, res, opens, crashed,
+  obtain ⟨st, sEnter, sp, kEnter, kDecided, kWait, kClean, lp, pp, abortClosed, nbClosed, wg, writing, res, opens, crashed,
     fuel, flag, rEnter, rSend, rWait, runOver, stopsDone⟩ := s
-  obtain ⟨h1, h2, h3, h4, h5, h6, h7, h8, h9, h10, h11, h12, h13⟩ := hg
-  dsimp only at h1 h2 h3 h4 h5 h6 h7 h8 h9 h10 h11 h12 h13
+  obtain ⟨h1, h2, h3, h4, h5, h6, h7, h8, h9, h10, h11, h12, h13, h14, h15⟩ := hg
+  dsimp only at h1 h2 h3 h4 h5 h6 h7 h8 h9 h10 h11 h12 h13 h14 h15
   rcases hs with hs | hs <;> lc_open hs <;>
     simp_all [deactivate, LPc.alive, LPc.working, PPc.alive, SPc.inStarting, SPc.owner, SrcState.running]
 
@@ -119,11 +119,48 @@ closed through `closeIfOpen`, which cannot close twice by construction) -/
 theorem lc_inv_no_double_close (o : Bool) (s s' : St) (h : Reach o s) (hs : step s .abortSeen = some s') :
     s.nbClosed = false ∧ s'.crashed = false := by
   have hg := lc_inv o s h
-  obtain ⟨st, sEnter, sp, kEnter, kWait, kClean, lp, pp, abortClosed, nbClosed, wg, writing, res, opens, crashed,
+  obtain ⟨st, sEnter, sp, kEnter, kDecided, kWait, kClean, lp, pp, abortClosed, nbClosed, wg, writing, res, opens, crashed,
     fuel, flag, rEnter, rSend, rWait, runOver, stopsDone⟩ := s
   have h7 := hg.prod_alive
   dsimp only at h7
   lc_open hs <;> simp_all [PPc.alive]
+
+/-! ### Atomicity of Stop's decision -/
+
+/-- **C10_stop_decision_atomic**: in every reachable state (any interleaving), while a Stop caller is between its
+decision "the source is Active" and its write "Stopping" it holds `sourceStateLock`: it is the only one there, the
+state IS Active, and no other lock section is enabled — neither the core loop's nor a failed Start's
+`RunDoneDeactivate`, nor `SetStateInactive`, `SetStateStarting`, `RunDoneActivate`, nor another Stop's decision.
+So the write `Stopping` always lands on an Active source (`C10_switch_from_active`); `C10_after_stops_inactive`
+rests on this (invariant clause `decided_active`): a Stop that wrote Stopping over an already Inactive source
+would leave it Stopping for ever. -/
+theorem C10_stop_decision_atomic (o : Bool) (s : St) (h : Reach o s) (hk : s.kDecided > 0) :
+    s.st = .active ∧ s.kDecided = 1 ∧
+    step s .loopDeactivate = none ∧ step s .starterDeactivate = none ∧ step s .setInactive = none ∧
+    step s .startOk = none ∧ step s .startRejected = none ∧ step s .activate = none ∧
+    step s .stopDecide = none ∧ step s .stopNotActive = none ∧ step s .stopAlready = none ∧
+    step s .stopOnStarting = none := by
+  have hg := lc_inv o s h
+  have h1 := hg.decided_active hk
+  have h2 := hg.decided_one
+  have hne : s.kDecided ≠ 0 := by omega
+  refine ⟨h1, by omega, ?_, ?_, ?_, ?_, ?_, ?_, ?_, ?_, ?_, ?_⟩ <;>
+    (unfold step; split <;> simp [hne])
+
+/-- the write of `Stopping` happens on an Active source, and it is what closes `abortSelf` -/
+theorem C10_switch_from_active (o : Bool) (s s' : St) (h : Reach o s) (hs : step s .stopSwitched = some s') :
+    s.st = .active ∧ s'.st = .stopping ∧ s'.abortClosed = true ∧ s'.kWait = s.kWait + 1 := by
+  have hg := lc_inv o s h
+  unfold step at hs
+  split at hs
+  · contradiction
+  · dsimp only at hs
+    split at hs
+    · next hk =>
+      simp only [Option.some.injEq] at hs
+      subst hs
+      exact ⟨hg.decided_active hk, rfl, rfl, rfl⟩
+    · contradiction
 
 /-! ### Crash freedom, and the two ways an overlapping Start breaks `Stop` (known findings) -/
 
@@ -192,7 +229,7 @@ a new Start succeeds then waits on the NEW run (the wait group is reused) -/
 theorem C10_wait_own_run_counterexample : ¬ C10_wait_own_run_full := by
   intro h
   obtain ⟨s, hs, hp⟩ := exists_of_run (runW (init false) [.callStart, .startOk, .sampled, .chans, .prepared 0,
-      .activate, .runStarted, .loopStart, .callStop, .stopSwitched, .abortSeen, .gotClosed, .loopDeactivate,
+      .activate, .runStarted, .loopStart, .callStop, .stopDecide, .stopSwitched, .abortSeen, .gotClosed, .loopDeactivate,
       .callStart, .startOk, .sampled, .chans, .prepared 0, .activate])
     (fun s => decide (s.kWait > 0 ∧ s.st = .active)) (by decide)
   simp only [decide_eq_true_eq] at hp
@@ -210,12 +247,17 @@ schedule), if some Start or Stop call has not returned then some non-environment
 theorem C10_no_stuck_state (o : Bool) (s : St) (h : ReachE o s) (hin : starters s > 0 ∨ stoppers s > 0) :
     ∃ e s', e.isEnv = false ∧ step s e = some s' := by
   have hall := reachE_allGood h
-  obtain ⟨st, sEnter, sp, kEnter, kWait, kClean, lp, pp, abortClosed, nbClosed, wg, writing, res, opens, crashed,
+  obtain ⟨st, sEnter, sp, kEnter, kDecided, kWait, kClean, lp, pp, abortClosed, nbClosed, wg, writing, res, opens, crashed,
     fuel, flag, rEnter, rSend, rWait, runOver, stopsDone⟩ := s
-  obtain ⟨⟨h1, h2, h3, h4, h5, h6, h7, h8, h9, h10, h11, h12, h13⟩, ⟨e1, e2, e3, e4⟩, hw, hc⟩ := hall
-  dsimp only [stoppers, GoodW] at h1 h2 h3 h4 h5 h6 h7 h8 h9 h10 h11 h12 h13 e1 e2 e3 e4 hw hc
+  obtain ⟨⟨h1, h2, h3, h4, h5, h6, h7, h8, h9, h10, h11, h12, h13, h14, h15⟩, ⟨e1, e2, e3, e4⟩, hw, hc⟩ := hall
+  dsimp only [stoppers, GoodW] at h1 h2 h3 h4 h5 h6 h7 h8 h9 h10 h11 h12 h13 h14 h15 e1 e2 e3 e4 hw hc
   subst hc
   simp only [starters, stoppers] at hin
+  -- a Stop caller inside its lock section always completes it
+  by_cases hkd : kDecided > 0
+  · exact stuck_mk _ (.stopSwitched) rfl (by simp [step, hkd])
+  have hkd0 : kDecided = 0 := by omega
+  subst hkd0
   -- a Start call before the lock
   by_cases hse : sEnter > 0
   · by_cases hst : st = .inactive
@@ -239,14 +281,14 @@ theorem C10_no_stuck_state (o : Bool) (s : St) (h : ReachE o s) (hin : starters 
   have hk : kEnter + kWait + kClean > 0 := by
     rcases hin with hin | hin
     · simp at hin; omega
-    · exact hin
+    · omega
   by_cases hkc : kClean > 0
   · exact stuck_mk _ (.stopCleaned) rfl (by simp [step, hkc])
   by_cases hke : kEnter > 0
   · cases st with
     | inactive => exact stuck_mk _ (.stopNotActive) rfl (by simp [step, hke])
     | starting => simp [SPc.inStarting] at h4
-    | active => exact stuck_mk _ (.stopSwitched) rfl (by simp [step, hke])
+    | active => exact stuck_mk _ (.stopDecide) rfl (by simp [step, hke])
     | stopping => exact stuck_mk _ (.stopAlready) rfl (by simp [step, hke])
   have hkw : kWait > 0 := by omega
   by_cases hwg : wg = 0
@@ -306,7 +348,7 @@ def loopRank : LPc → Nat
 
 def measure (s : St) : Nat :=
   if s.crashed then 0 else
-  1 + 3 * (4 * s.fuel + prodRank s.pp) + loopRank s.lp + 3 * s.kEnter + 2 * s.kWait + s.kClean
+  1 + 3 * (4 * s.fuel + prodRank s.pp) + loopRank s.lp + 4 * s.kEnter + 3 * s.kDecided + 2 * s.kWait + s.kClean
     + 6 * s.rEnter + 5 * s.rSend + s.rWait
 
 /-- no Start call in flight and the source is not Active: the situation from the moment the first Stop
@@ -320,11 +362,11 @@ blocks (`fuel` is arbitrary, chosen per run by the event `prepared fuel`). -/
 theorem C10_stop_measure (s s' : St) (e : Ev) (hg : Good s) (hw : GoodW s) (hsd : ShuttingDown s)
     (henv : e.isEnv = false) (hwf : e.wf = true) (hs : step s e = some s') :
     measure s' < measure s ∧ ShuttingDown s' := by
-  obtain ⟨st, sEnter, sp, kEnter, kWait, kClean, lp, pp, abortClosed, nbClosed, wg, writing, res, opens, crashed,
+  obtain ⟨st, sEnter, sp, kEnter, kDecided, kWait, kClean, lp, pp, abortClosed, nbClosed, wg, writing, res, opens, crashed,
     fuel, flag, rEnter, rSend, rWait, runOver, stopsDone⟩ := s
-  obtain ⟨h1, h2, h3, h4, h5, h6, h7, h8, h9, h10, h11, h12, h13⟩ := hg
+  obtain ⟨h1, h2, h3, h4, h5, h6, h7, h8, h9, h10, h11, h12, h13, h14, h15⟩ := hg
   obtain ⟨hd1, hd2, hd3⟩ := hsd
-  dsimp only [GoodW] at h1 h2 h3 h4 h5 h6 h7 h8 h9 h10 h11 h12 h13 hd1 hd2 hd3 hw
+  dsimp only [GoodW] at h1 h2 h3 h4 h5 h6 h7 h8 h9 h10 h11 h12 h13 h14 h15 hd1 hd2 hd3 hw
   subst hd1 hd2
   have habort : pp.alive → abortClosed = true := by
     intro hp
@@ -342,9 +384,10 @@ theorem C10_stop_measure (s s' : St) (e : Ev) (hg : Good s) (hw : GoodW s) (hsd 
 
 /-- while a Stop caller is before its lock section and the source is Active, its step is enabled and ends the
 Active phase: after it the measure argument applies -/
-theorem C10_stop_progress (s : St) (hc : s.crashed = false) (hk : s.kEnter > 0) (ha : s.st = .active) :
-    ∃ s', step s .stopSwitched = some s' ∧ s'.st = .stopping ∧ s'.abortClosed = true := by
-  refine ⟨_, by simp [step, hc, hk, ha]; rfl, rfl, rfl⟩
+theorem C10_stop_progress (s : St) (hc : s.crashed = false) (hk : s.kEnter > 0) (ha : s.st = .active)
+    (hl : s.kDecided = 0) :
+    ∃ s', run s [.stopDecide, .stopSwitched] = some s' ∧ s'.st = .stopping ∧ s'.abortClosed = true := by
+  refine ⟨_, by simp [run, step, hc, hk, ha, hl]; rfl, rfl, rfl⟩
 
 /-- bounded shut-down: from a shutting-down state, an execution without environment events has at most
 `measure s` steps — with `C10_no_stuck_state` (a step exists while a Stop call is in flight): every Stop call
@@ -378,9 +421,9 @@ theorem C10_after_stops_inactive (o : Bool) (s : St) (h : ReachE o s) (hd : s.st
     s.st = .inactive ∧ starters s = 0 ∧ s.lp = .off ∧ ¬ s.pp.alive ∧ s.wg = 0 ∧ s.writing = false ∧
       s.res = false := by
   have hall := reachE_allGood h
-  obtain ⟨st, sEnter, sp, kEnter, kWait, kClean, lp, pp, abortClosed, nbClosed, wg, writing, res, opens, crashed,
+  obtain ⟨st, sEnter, sp, kEnter, kDecided, kWait, kClean, lp, pp, abortClosed, nbClosed, wg, writing, res, opens, crashed,
     fuel, flag, rEnter, rSend, rWait, runOver, stopsDone⟩ := s
-  obtain ⟨⟨h1, h2, h3, h4, h5, h6, h7, h8, h9, h10, h11, h12, h13⟩, ⟨e1, e2, e3, e4⟩, hw, hc⟩ := hall
+  obtain ⟨⟨h1, h2, h3, h4, h5, h6, h7, h8, h9, h10, h11, h12, h13, h14, h15⟩, ⟨e1, e2, e3, e4⟩, hw, hc⟩ := hall
   dsimp only [stoppers, starters, GoodW] at *
   obtain ⟨q1, q2, q3⟩ := e4 hd
   subst q1 q2
@@ -424,13 +467,18 @@ theorem C10_restart (o : Bool) (s : St) (fuel : Nat) (h : Reach o s) (hc : s.cra
     ∃ s', run s (startSeq fuel) = some s' ∧ s'.st = .active ∧ s'.lp = .spawned ∧ s'.pp = .run ∧ s'.wg = 1 ∧
       s'.abortClosed = false ∧ s'.nbClosed = false ∧ s'.sp = .idle := by
   have hg := lc_inv o s h
-  obtain ⟨st, sEnter, sp, kEnter, kWait, kClean, lp, pp, abortClosed, nbClosed, wg, writing, res, opens, crashed,
+  obtain ⟨st, sEnter, sp, kEnter, kDecided, kWait, kClean, lp, pp, abortClosed, nbClosed, wg, writing, res, opens, crashed,
     fuel0, flag, rEnter, rSend, rWait, runOver, stopsDone⟩ := s
-  obtain ⟨h1, h2, h3, h4, h5, h6, h7, h8, h9, h10, h11, h12, h13⟩ := hg
+  obtain ⟨h1, h2, h3, h4, h5, h6, h7, h8, h9, h10, h11, h12, h13, h14, h15⟩ := hg
   dsimp only at *
   subst hc hst hse
   have hwg : wg = 0 := by simpa [SrcState.running] using h1
   subst hwg
+  have hkd : kDecided = 0 := by
+    cases kDecided with
+    | zero => rfl
+    | succ n => simp at h14
+  subst hkd
   simp [startSeq, run, step]
 
 /-- **C10_failed_start_restartable**: when a Start call fails (Sample / PrepareChannels / PrepareRun error, in any
@@ -440,10 +488,10 @@ theorem C10_failed_start_restartable (o : Bool) (s s' : St) (h : Reach o s) (hs 
     s'.st = .inactive ∧ s'.sp = .idle ∧ s'.lp = .off ∧ ¬ s'.pp.alive ∧ s'.wg = 0 ∧ s'.res = false ∧
       ∃ s'', run s' [.callStart, .startOk] = some s'' ∧ s''.sp = .starting := by
   have hg := lc_inv o s h
-  obtain ⟨st, sEnter, sp, kEnter, kWait, kClean, lp, pp, abortClosed, nbClosed, wg, writing, res, opens, crashed,
+  obtain ⟨st, sEnter, sp, kEnter, kDecided, kWait, kClean, lp, pp, abortClosed, nbClosed, wg, writing, res, opens, crashed,
     fuel0, flag, rEnter, rSend, rWait, runOver, stopsDone⟩ := s
-  obtain ⟨h1, h2, h3, h4, h5, h6, h7, h8, h9, h10, h11, h12, h13⟩ := hg
-  dsimp only at h1 h2 h3 h4 h5 h6 h7 h8 h9 h10 h11 h12 h13
+  obtain ⟨h1, h2, h3, h4, h5, h6, h7, h8, h9, h10, h11, h12, h13, h14, h15⟩ := hg
+  dsimp only at h1 h2 h3 h4 h5 h6 h7 h8 h9 h10 h11 h12 h13 h14 h15
   lc_open hs
   simp_all [SPc.inStarting, SPc.owner, LPc.alive, LPc.working, PPc.alive, SrcState.running, run, step]
   grind
@@ -460,10 +508,10 @@ theorem C10_failed_startrun_restartable (o : Bool) (s s' : St) (h : Reach o s)
       s'.res = false ∧ s'.crashed = false ∧
       ∃ s'', run s' [.callStart, .startOk] = some s'' ∧ s''.sp = .starting := by
   have hg := lc_inv o s h
-  obtain ⟨st, sEnter, sp, kEnter, kWait, kClean, lp, pp, abortClosed, nbClosed, wg, writing, res, opens, crashed,
+  obtain ⟨st, sEnter, sp, kEnter, kDecided, kWait, kClean, lp, pp, abortClosed, nbClosed, wg, writing, res, opens, crashed,
     fuel0, flag, rEnter, rSend, rWait, runOver, stopsDone⟩ := s
-  obtain ⟨h1, h2, h3, h4, h5, h6, h7, h8, h9, h10, h11, h12, h13⟩ := hg
-  dsimp only at h1 h2 h3 h4 h5 h6 h7 h8 h9 h10 h11 h12 h13
+  obtain ⟨h1, h2, h3, h4, h5, h6, h7, h8, h9, h10, h11, h12, h13, h14, h15⟩ := hg
+  dsimp only at h1 h2 h3 h4 h5 h6 h7 h8 h9 h10 h11 h12 h13 h14 h15
   lc_open hs
   all_goals simp only [deactivate]
   all_goals split
@@ -484,7 +532,7 @@ theorem C10_failed_start_barrier_released (o : Bool) (s s' : St) (h : Reach o s)
 /-- a StartRun failure followed by a successful Start and a Stop that returns is a run of the model -/
 example : ∃ s, runE (init false) [.callStart, .startOk, .sampled, .chans, .prepared 0, .activate, .startRunFailed,
     .starterDeactivate, .callStart, .startOk, .sampled, .chans, .prepared 0, .activate, .runStarted, .loopStart,
-    .callStop, .stopSwitched, .abortSeen, .gotClosed, .loopDeactivate, .stopWaited, .stopCleaned] = some s ∧
+    .callStop, .stopDecide, .stopSwitched, .abortSeen, .gotClosed, .loopDeactivate, .stopWaited, .stopCleaned] = some s ∧
     (decide (s.st = .inactive ∧ s.wg = 0 ∧ stoppers s = 0 ∧ s.stopsDone = 1)) = true :=
   exists_of_run _ _ (by decide)
 
@@ -492,14 +540,14 @@ example : ∃ s, runE (init false) [.callStart, .startOk, .sampled, .chans, .pre
 
 /-- a run with two concurrent Stop callers racing the producer's shut-down satisfies E -/
 example : ∃ s, runE (init false) [.callStart, .startOk, .sampled, .chans, .prepared 2, .activate, .runStarted,
-    .loopStart, .tick, .send, .gotBlock, .callStop, .callStop, .stopSwitched, .processed, .stopAlready, .tick,
+    .loopStart, .tick, .send, .gotBlock, .callStop, .callStop, .stopDecide, .stopSwitched, .processed, .stopAlready, .tick,
     .send, .gotBlock, .processed, .abortSeen, .gotClosed, .loopDeactivate, .stopWaited, .stopCleaned] = some s ∧
     (decide (s.stopsDone = 2 ∧ stoppers s = 0 ∧ s.st = .inactive)) = true :=
   exists_of_run _ _ (by decide)
 
 /-- a shutting-down state with a Stop caller waiting (hypotheses of `C10_stop_measure`) is reachable -/
 example : ∃ s, runE (init false) [.callStart, .startOk, .sampled, .chans, .prepared 2, .activate, .runStarted,
-    .loopStart, .callStop, .stopSwitched] = some s ∧
+    .loopStart, .callStop, .stopDecide, .stopSwitched] = some s ∧
     (decide (s.sEnter = 0 ∧ s.sp = .idle ∧ s.st ≠ .active ∧ s.kWait = 1)) = true :=
   exists_of_run _ _ (by decide)
 
